@@ -437,83 +437,107 @@ let run_partrace id rest =
        let wlists = if wbody = "" then [] else Stdlib.List.map (fun x -> if x = "" then [] else split_on ',' x) (split_on ';' wbody) in
        let wq = Array.make wn [] in
        Stdlib.List.iteri (fun i l -> if i < wn then wq.(i) <- l) wlists;
-       let st = ref (Par.init plan) in
-       let steps = ref 0 in
        (* the refill queue is FIFO with a single consumer: the feeder's G tokens fix the order in
           which the workers must have returned their buffers *)
        let gseq = Array.of_list (Stdlib.List.filter_map (fun t -> if t.[0] = 'G' then Some (int_of_string (Stdlib.String.sub t 1 (Stdlib.String.length t - 1))) else None) !fq) in
-       let pushes = ref 0 in
        let nbufs = int_of_nat (Par.nbuf plan) in
-       let push_ok b = let k = nbufs + !pushes in k >= Array.length gseq || gseq.(k) = b in
        let num x = int_of_string (Stdlib.String.sub x 1 (Stdlib.String.length x - 1)) in
-       let try_label l = match Par.step plan !st l with Some s' -> st := s'; incr steps; true | None -> false in
-       (* data consistency checks before firing *)
-       let try_f () = match !fq with
-         | [] -> false
-         | t :: r ->
-           let ok = (match t.[0] with
-             | 'G' -> (match (!st).Par.s_refill with b :: _ -> int_of_nat b = num t | [] -> false) && try_label Par.LFRecv
-             | 'N' -> int_of_nat (!st).Par.s_next = num t && not (Par.read_fails plan !st) && int_of_nat (!st).Par.s_next < blocks && try_label Par.LFRead
-             | 'Z' -> not (Par.read_fails plan !st) && int_of_nat (!st).Par.s_next >= blocks && try_label Par.LFRead
-             | 'F' -> Par.read_fails plan !st && try_label Par.LFRead
-             | 'S' -> (match (!st).Par.s_f with Par.FSend b -> int_of_nat b = num t | _ -> false) && try_label Par.LFSend
-             | 'T' -> try_label Par.LFStop
-             | _ -> false) in
-           if ok then fq := r; ok in
-       let try_h () = match !hq with
-         | [] -> false
-         | t :: r ->
-           let ok = (match (!st).Par.s_hashq with
-             | Some _ :: _ -> t = "D" && try_label Par.LHRecv
-             | None :: _ -> t = "E" && try_label Par.LHRecv
-             | [] -> false) in
-           if ok then hq := r; ok in
-       let try_m () = match !mq with
-         | [] -> false
-         | t :: r ->
-           let ok = (match t with
-             | "SH" -> (if !fq = [] then ignore (try_label Par.LFDone)); try_label Par.LMStopHash
-             | "JH" -> try_label Par.LMJoinHash
-             | "JW" -> try_label Par.LMJoinWorkers
-             | _ -> false) in
-           if ok then mq := r; ok in
-       let try_w i = match wq.(i) with
-         | [] -> false
-         | t :: r ->
-           let ni = nat_of_int i in
-           let ok = (match t.[0] with
-             | 'R' -> (match (!st).Par.s_encq with
-                       | Some b :: _ -> t <> "RN" && int_of_nat b = num t && try_label (Par.LWRecv ni)
-                       | None :: _ -> t = "RN" && try_label (Par.LWRecv ni)
-                       | [] -> false)
-             | 'E' -> (match split_on ':' (Stdlib.String.sub t 1 (Stdlib.String.length t - 1)) with
-                       | [n; okf] ->
-                         let n = int_of_string n in
-                         (match Stdlib.List.nth_opt (Stdlib.List.map (fun x -> x) (!st).Par.s_w) i with
-                          | Some (Par.WEnc b) ->
-                            (match Stdlib.List.nth_opt (!st).Par.s_bufs (int_of_nat b) with
-                             | Some (Some fn) -> int_of_nat fn = n && (Stdlib.List.mem n invl) = (okf = "0") && push_ok (int_of_nat b)
-                                                 && (if try_label (Par.LWEnc ni) then (incr pushes; true) else false)
-                             | _ -> false)
-                          | _ -> false)
-                       | _ -> false)
-             | 'P' -> (match Stdlib.List.nth_opt (!st).Par.s_w i with
-                       | Some (Par.WPush n) -> int_of_nat n = num t && try_label (Par.LWPush ni)
-                       | _ -> false)
-             | _ -> false) in
-           if ok then wq.(i) <- r; ok in
-       let progress = ref true in
-       while !progress do
-         progress := false;
-         if try_f () then progress := true
-         else if try_h () then progress := true
-         else begin
-           let fired = ref false in
-           for i = 0 to wn - 1 do if not !fired && try_w i then fired := true done;
-           if !fired then progress := true else if try_m () then progress := true
-         end
-       done;
-       let left = Stdlib.List.length !fq + Stdlib.List.length !hq + Stdlib.List.length !mq + Array.fold_left (fun a l -> a + Stdlib.List.length l) 0 wq in
+       (* a search node: model state, remaining labels per thread, number of buffers returned so far *)
+       let step st l = Par.step plan st l in
+       let push_ok pushes b = let k = nbufs + pushes in k >= Array.length gseq || gseq.(k) = b in
+       (* all ways to consume one label from one thread; the data on the label must agree with the model *)
+       let moves (st, fq, hq, mq, wq, pushes) =
+         let acc = ref [] in
+         let add x = acc := x :: !acc in
+         (match fq with
+          | [] -> ()
+          | t :: r ->
+            let fire l = (match step st l with Some s' -> add (s', r, hq, mq, wq, pushes) | None -> ()) in
+            (match t.[0] with
+             | 'G' -> (match st.Par.s_refill with b :: _ when int_of_nat b = num t -> fire Par.LFRecv | _ -> ())
+             | 'N' -> if int_of_nat st.Par.s_next = num t && not (Par.read_fails plan st) && int_of_nat st.Par.s_next < blocks then fire Par.LFRead
+             | 'Z' -> if not (Par.read_fails plan st) && int_of_nat st.Par.s_next >= blocks then fire Par.LFRead
+             | 'F' -> if Par.read_fails plan st then fire Par.LFRead
+             | 'S' -> (match st.Par.s_f with Par.FSend b when int_of_nat b = num t -> fire Par.LFSend | _ -> ())
+             | 'T' -> fire Par.LFStop
+             | _ -> ()));
+         (match hq with
+          | [] -> ()
+          | t :: r ->
+            (match st.Par.s_hashq with
+             | Some _ :: _ when t = "D" -> (match step st Par.LHRecv with Some s' -> add (s', fq, r, mq, wq, pushes) | None -> ())
+             | None :: _ when t = "E" -> (match step st Par.LHRecv with Some s' -> add (s', fq, r, mq, wq, pushes) | None -> ())
+             | _ -> ()));
+         (match mq with
+          | [] -> ()
+          | t :: r ->
+            let st0 = if t = "SH" && fq = [] then (match step st Par.LFDone with Some s' -> s' | None -> st) else st in
+            let l = (match t with "SH" -> Some Par.LMStopHash | "JH" -> Some Par.LMJoinHash | "JW" -> Some Par.LMJoinWorkers | _ -> None) in
+            (match l with
+             | Some l -> (match step st0 l with Some s' -> add (s', fq, hq, r, wq, pushes) | None -> ())
+             | None -> ()));
+         Array.iteri (fun i q ->
+           match q with
+           | [] -> ()
+           | t :: r ->
+             let ni = nat_of_int i in
+             let wq' () = let a = Array.copy wq in a.(i) <- r; a in
+             (match t.[0] with
+              | 'R' ->
+                (match st.Par.s_encq with
+                 | Some b :: _ when t <> "RN" && int_of_nat b = num t -> (match step st (Par.LWRecv ni) with Some s' -> add (s', fq, hq, mq, wq' (), pushes) | None -> ())
+                 | None :: _ when t = "RN" -> (match step st (Par.LWRecv ni) with Some s' -> add (s', fq, hq, mq, wq' (), pushes) | None -> ())
+                 | _ -> ())
+              | 'E' ->
+                (match split_on ':' (Stdlib.String.sub t 1 (Stdlib.String.length t - 1)) with
+                 | [n; okf] ->
+                   let n = int_of_string n in
+                   (match Stdlib.List.nth_opt st.Par.s_w i with
+                    | Some (Par.WEnc b) ->
+                      (match Stdlib.List.nth_opt st.Par.s_bufs (int_of_nat b) with
+                       | Some (Some fn) when int_of_nat fn = n && (Stdlib.List.mem n invl) = (okf = "0") && push_ok pushes (int_of_nat b) ->
+                         (match step st (Par.LWEnc ni) with Some s' -> add (s', fq, hq, mq, wq' (), pushes + 1) | None -> ())
+                       | _ -> ())
+                    | _ -> ())
+                 | _ -> ())
+              | 'P' ->
+                (match Stdlib.List.nth_opt st.Par.s_w i with
+                 | Some (Par.WPush n) when int_of_nat n = num t -> (match step st (Par.LWPush ni) with Some s' -> add (s', fq, hq, mq, wq' (), pushes) | None -> ())
+                 | _ -> ())
+              | _ -> ())) wq;
+         !acc in
+       let remaining (_, fq, hq, mq, wq, _) =
+         Stdlib.List.length fq + Stdlib.List.length hq + Stdlib.List.length mq + Array.fold_left (fun a l -> a + Stdlib.List.length l) 0 wq in
+       (* depth-first search with memoisation over (positions, model state): complete for "is there a
+          linearisation of the per-thread label sequences that the LTS accepts" *)
+       let visited = Hashtbl.create 1024 in
+       let key ((st, fq, hq, mq, wq, pushes) as _n) =
+         (Stdlib.List.length fq, Stdlib.List.length hq, Stdlib.List.length mq, Array.to_list (Array.map Stdlib.List.length wq), pushes, Marshal.to_string st []) in
+       let best = ref None in
+       let found = ref None in
+       let nodes = ref 0 in
+       let total = remaining (Par.init plan, !fq, !hq, !mq, wq, 0) in
+       let rec dfs node =
+         if !found = None && !nodes < 400000 then begin
+           incr nodes;
+           let k = key node in
+           if not (Hashtbl.mem visited k) then begin
+             Hashtbl.add visited k ();
+             let left = remaining node in
+             (match !best with Some (l, _) when l <= left -> () | _ -> best := Some (left, node));
+             let (st, _, _, _, _, _) = node in
+             if left = 0 && Par.final st then found := Some node
+             else Stdlib.List.iter dfs (moves node)
+           end
+         end in
+       dfs (Par.init plan, !fq, !hq, !mq, wq, 0);
+       let steps = ref 0 and left = ref 0 in
+       let st = ref (Par.init plan) in
+       (match !found, !best with
+        | Some ((s, _, _, _, _, _) as n), _ -> st := s; left := remaining n; steps := total
+        | None, Some (l, (s, f2, h2, m2, _, _)) -> st := s; left := l; steps := total - l; fq := f2; hq := h2; mq := m2
+        | None, None -> ());
+       let left = !left in
        let outcome o = (match o with Par.OutOk (fr, hs) -> Printf.sprintf "ok:%d:%d" (Stdlib.List.length fr) (Stdlib.List.length hs) | Par.OutConfigErr -> "err-config" | Par.OutSourceErr -> "err-source") in
        if left = 0 && Par.final !st then
          Printf.sprintf "%s valid steps=%d lts=%s seq=%s" id !steps (outcome (Par.result_of !st)) (outcome (Par.seq_result plan))
